@@ -214,3 +214,173 @@ Qed.
 Corollary unbalanced_rule_rejected elements xlower t r k :
   k < length (r_names r) -> rule_balance r k <> 0%Z -> read_rule elements xlower t <> ROk' r.
 Proof. intros Hk Hn H. apply Hn. eapply accepted_rule_balanced; eauto. Qed.
+
+(* ---------- the declared edit, precisely, and nothing else (bonds) ---------- *)
+Definition same_pair (u v a b : nat) : Prop := (u = a /\ v = b) \/ (u = b /\ v = a).
+
+Lemma find_filter_keep {A} (p q : A -> bool) l : (forall x, p x = true -> q x = true) -> find p (filter q l) = find p l.
+Proof.
+  intros H. induction l as [|x l IH]; simpl; auto.
+  destruct (q x) eqn:Q; simpl.
+  - destruct (p x); auto.
+  - destruct (p x) eqn:P; auto. rewrite (H x P) in Q. discriminate.
+Qed.
+Lemma find_filter_none {A} (p : A -> bool) l : find p (filter (fun x => negb (p x)) l) = None.
+Proof.
+  induction l as [|x l IH]; simpl; auto. destruct (p x) eqn:P; simpl; auto. rewrite P. exact IH.
+Qed.
+Lemma find_snoc {A} (p : A -> bool) l x :
+  find p (l ++ [x]) = match find p l with Some y => Some y | None => if p x then Some x else None end.
+Proof. induction l as [|y l IH]; simpl; [destruct (p x); reflexivity|]. destruct (p y); auto. Qed.
+
+Definition between (u v : nat) (b : mbond) : bool :=
+  (Nat.eqb (b_u b) u && Nat.eqb (b_v b) v) || (Nat.eqb (b_u b) v && Nat.eqb (b_v b) u).
+Lemma bond_between_find m u v : bond_between m u v = find (between u v) (bonds m).
+Proof. reflexivity. Qed.
+
+Lemma between_pairs u v a b x : between u v x = true -> between a b x = true -> same_pair u v a b.
+Proof.
+  unfold between, same_pair. intros H1 H2.
+  apply orb_true_iff in H1. apply orb_true_iff in H2.
+  repeat match goal with
+         | H : _ \/ _ |- _ => destruct H
+         | H : _ && _ = true |- _ => apply andb_true_iff in H; destruct H
+         | H : Nat.eqb _ _ = true |- _ => apply Nat.eqb_eq in H
+         end; subst; lia || (try (left; split; congruence)); try (right; split; congruence).
+Qed.
+
+Lemma remove_bond_other m a b u v : ~ same_pair u v a b ->
+  bond_between (remove_bond m a b) u v = bond_between m u v.
+Proof.
+  intros H. rewrite !bond_between_find. unfold remove_bond. simpl.
+  apply find_filter_keep. intros x Hx. apply negb_true_iff.
+  destruct ((Nat.eqb (b_u x) a && Nat.eqb (b_v x) b) || (Nat.eqb (b_u x) b && Nat.eqb (b_v x) a)) eqn:E; auto.
+  exfalso. apply H. eapply between_pairs; eauto.
+Qed.
+
+Lemma remove_bond_self m a b : bond_between (remove_bond m a b) a b = None.
+Proof. rewrite bond_between_find. unfold remove_bond. simpl. apply (find_filter_none (between a b)). Qed.
+
+Lemma add_bond_other m a b t m' u v : add_bond_m m a b t = Some m' -> ~ same_pair u v a b ->
+  bond_between m' u v = bond_between m u v.
+Proof.
+  unfold add_bond_m. destruct (Nat.eqb a b); [discriminate|].
+  destruct (bond_between m a b) eqn:E; [discriminate|]. intros H Hp. inversion H; subst; clear H.
+  rewrite !bond_between_find. simpl. rewrite find_snoc.
+  destruct (find (between u v) (bonds m)); auto.
+  destruct (between u v _) eqn:B; auto. exfalso. apply Hp.
+  unfold between in B. simpl in B. apply orb_true_iff in B. unfold same_pair.
+  destruct B as [B|B]; apply andb_true_iff in B; destruct B as [B1 B2];
+    apply Nat.eqb_eq in B1; apply Nat.eqb_eq in B2; subst; auto.
+Qed.
+
+Lemma add_bond_self m a b t m' : add_bond_m m a b t = Some m' ->
+  exists bd, bond_between m' a b = Some bd /\ b_t bd = t /\ bond_between m a b = None /\ a <> b.
+Proof.
+  unfold add_bond_m. destruct (Nat.eqb_spec a b) as [|Hne]; [discriminate|].
+  destruct (bond_between m a b) eqn:E; [discriminate|]. intros H. inversion H; subst; clear H.
+  eexists. rewrite bond_between_find. simpl. rewrite find_snoc. rewrite bond_between_find in E. rewrite E.
+  unfold between at 1. simpl. rewrite !Nat.eqb_refl. simpl. repeat split; auto.
+Qed.
+
+(* the pair of matched atoms a bond edit addresses *)
+Definition edit_pair (e : edit) : option (nat * nat) :=
+  match e with
+  | EForm i j _ | EBreak i j | EModify i j _ | EInc i j | EDec i j => Some (i, j)
+  | _ => None
+  end.
+
+(* frame: every other pair of atoms keeps its bond (or absence of one) *)
+Theorem apply_edit_frame_bonds img m e m' u v :
+  apply_edit img m e = Some m' ->
+  (forall i j a b, edit_pair e = Some (i, j) -> nth_error img i = Some a -> nth_error img j = Some b -> ~ same_pair u v a b) ->
+  bond_between m' u v = bond_between m u v.
+Proof.
+  intros H Hp.
+  destruct e; simpl in H;
+    repeat match type of H with
+           | match ?x with _ => _ end = _ => destruct x eqn:?; try discriminate
+           | (if ?x then _ else _) = _ => destruct x eqn:?; try discriminate
+           end;
+    try (inversion H; subst; reflexivity);
+    try (assert (NP : ~ same_pair u v n n0) by (eapply Hp; simpl; eauto)).
+  all: try (erewrite add_bond_other by eauto; try apply remove_bond_other; auto; fail).
+  all: try (inversion H; subst; apply remove_bond_other; auto; fail).
+Qed.
+
+(* effect: what each edit does to the pair / atom it names *)
+Ltac unf H := simpl in H;
+  repeat match type of H with
+         | match ?x with _ => _ end = _ => destruct x eqn:?; try discriminate
+         | (if ?x then _ else _) = _ => destruct x eqn:?; try discriminate
+         end.
+
+Theorem edit_break_effect img m i j m' : apply_edit img m (EBreak i j) = Some m' ->
+  exists a b, nth_error img i = Some a /\ nth_error img j = Some b /\ bond_between m' a b = None /\ atoms m' = atoms m.
+Proof. intros H. unf H. inversion H; subst. do 2 eexists. repeat split; eauto. apply remove_bond_self. Qed.
+
+Theorem edit_form_effect img m i j t m' : apply_edit img m (EForm i j t) = Some m' ->
+  exists a b bd, nth_error img i = Some a /\ nth_error img j = Some b /\ a <> b /\ bond_between m a b = None
+                 /\ bond_between m' a b = Some bd /\ b_t bd = t /\ atoms m' = atoms m.
+Proof.
+  intros H. unf H. destruct (add_bond_self _ _ _ _ _ H) as (bd & A & B & C & D).
+  exists n, n0, bd. repeat split; auto. eapply add_bond_atoms; eauto.
+Qed.
+
+Theorem edit_modify_effect img m i j t m' : apply_edit img m (EModify i j t) = Some m' ->
+  exists a b bd, nth_error img i = Some a /\ nth_error img j = Some b
+                 /\ bond_between m' a b = Some bd /\ b_t bd = t /\ atoms m' = atoms m.
+Proof.
+  intros H. unf H. destruct (add_bond_self _ _ _ _ _ H) as (bd & A & B & C & D).
+  exists n, n0, bd. repeat split; auto. apply add_bond_atoms in H. exact H.
+Qed.
+
+Theorem edit_inc_effect img m i j m' : apply_edit img m (EInc i j) = Some m' ->
+  exists a b old bd t', nth_error img i = Some a /\ nth_error img j = Some b
+    /\ bond_between m a b = Some old /\ inc_type (b_t old) = Some t'
+    /\ bond_between m' a b = Some bd /\ b_t bd = t' /\ atoms m' = atoms m.
+Proof.
+  intros H. unf H. destruct (add_bond_self _ _ _ _ _ H) as (bd & A & B & C & D).
+  exists n, n0, m0, bd, b. repeat split; auto. apply add_bond_atoms in H. exact H.
+Qed.
+
+Theorem edit_dec_effect img m i j m' : apply_edit img m (EDec i j) = Some m' ->
+  exists a b old, nth_error img i = Some a /\ nth_error img j = Some b /\ bond_between m a b = Some old
+    /\ atoms m' = atoms m
+    /\ match dec_type (b_t old) with
+       | Some (Some t') => exists bd, bond_between m' a b = Some bd /\ b_t bd = t'
+       | Some None => bond_between m' a b = None
+       | None => False
+       end.
+Proof.
+  intros H. unf H.
+  - destruct (add_bond_self _ _ _ _ _ H) as (bd & A & B & C & D).
+    exists n, n0, m0. repeat split; auto; [apply add_bond_atoms in H; exact H|]. rewrite Heqo2. eauto.
+  - inversion H; subst. exists n, n0, m0. repeat split; auto. rewrite Heqo2. apply remove_bond_self.
+Qed.
+
+Lemma upd_atom_same l i f x : nth_error l i = Some x -> nth_error (upd_atom l i f) i = Some (f x).
+Proof.
+  revert i; induction l as [|a l IH]; intros [|i] H; simpl in *; try discriminate.
+  - inversion H; reflexivity.
+  - apply IH. exact H.
+Qed.
+
+Theorem edit_atom_effect img m e m' : apply_edit img m e = Some m' -> edit_pair e = None ->
+  bonds m' = bonds m /\
+  exists i a, nth_error img i = Some a /\
+    forall x, nth_error (atoms m) a = Some x ->
+      exists y, nth_error (atoms m') a = Some y /\ a_z y = a_z x /\ a_arom y = a_arom x /\
+        match e with
+        | ESetRad _ n => a_rad y = n /\ a_chg y = 0%Z
+        | ERadInc _ => a_rad y = (a_rad x + 1)%N /\ a_chg y = a_chg x
+        | ERadDec _ => a_rad y = (a_rad x - 1)%N /\ a_rad x <> 0%N /\ a_chg y = a_chg x
+        | EChgInc _ => a_chg y = (a_chg x + 1)%Z /\ a_rad y = a_rad x
+        | EChgDec _ => a_chg y = (a_chg x - 1)%Z /\ a_rad y = a_rad x
+        | _ => True
+        end.
+Proof.
+  intros H Hp. destruct e; try discriminate Hp; unf H; inversion H; subst; clear H; (split; [reflexivity|]);
+    eexists; eexists; (split; [eassumption|]); intros x Hx; eexists; (split; [apply upd_atom_same; exact Hx|]); simpl; repeat split; auto.
+  - rewrite Hx in Heqo0. inversion Heqo0; subst. apply N.eqb_neq. assumption.
+Qed.
